@@ -17,7 +17,7 @@ LEVEL = "exploration"
 MANIFEST = dict(
     engine="E1-simcluster", engine_path="vlib/simcluster.py",
     kind="real controller + scheduler against SimBridge (executable nondeterministic model of the executors); plus the real worker entrypoint in a forked process with a real shm server, driven through every permutation of TaskSequence / DatasetPublished messages",
-    technique="runtime monitoring of the real controller behind the Bridge seam: every Bridge.task_sequence call is checked online against the model's ground truth (task not sent before, worker exists, is free, has a GPU if needed, every input produced, input on the target host or its transfer commanded; at return every task was dispatched). Worker clause: the real entrypoint receives the task command and the publication notices of its inputs in every order (<=4 inputs exhaustive: 153 orders; larger sampled), each input being written to shared memory just before its notice; a wrapper around execute_sequence records at the instant the sequence starts whether every required input is readable; exactly one start, no start before the last input, correct published value",
+    technique="runtime monitoring of the real controller behind the Bridge seam: every Bridge.task_sequence call is checked online against the model's ground truth (task not sent before, worker exists, is free, has a GPU if needed, every input produced, input on the target host or its transfer commanded; at return every task was dispatched). Worker clause: the real entrypoint receives the task command and the publication notices of its inputs in every order (<=4 inputs exhaustive: 153 orders; larger sampled), each input being written to shared memory just before its notice (inputs come from producers with 1-3 outputs, so a sibling output of the same task may already be on the host); a wrapper around execute_sequence records at the instant the sequence starts whether every required input is readable; exactly one start, no start before the last input, correct published value",
     text="Held = every dispatch in every simulated run satisfied all clauses, and in every message order the real worker started the sequence exactly once, only after all inputs were readable on its host, and published the value sequential evaluation gives.",
     note="the executors in E1 are a model (orders allowed are those the transports allow); the worker harness uses one real worker process and one real shm server per shard.",
 )
@@ -25,7 +25,7 @@ RULE = ("case = one controller run (generated job DAG x environment 1-4 hosts x 
         "round (a task with 0-6 inputs, one permutation of [TaskSequence, notice_1..notice_k], optional duplicate notices and unrelated purges); non-trivial = >=2 tasks and >=1 edge, or >=1 input; "
         "distinct = digest(job skeleton, environment, policy, order) resp. (k, permutation)")
 ASSUMPTIONS = ["executors eventually execute every command they were given (fair model)", "per-origin FIFO of events except in the reorder-by-retransmission class"]
-REQUIRED_COUNTERS = ["runs", "commands_task_sequence", "tasks_executed", "runs_multi_host", "commands_transmit", "worker_rounds", "worker_orders_overtaking_notice", "worker_values_checked"]
+REQUIRED_COUNTERS = ["runs", "commands_task_sequence", "tasks_executed", "runs_multi_host", "commands_transmit", "worker_rounds", "worker_orders_overtaking_notice", "worker_rounds_sibling_outputs_split_by_command", "worker_values_checked"]
 
 ENUM = [(k, pi) for k in range(0, 5) for pi in range(math.factorial(k + 1))]   # 153 message orders for <=4 inputs
 
@@ -79,6 +79,7 @@ def run_worker_shard(spec, col: Collector):
     col.count("worker_starts", st["starts"])
     col.count("worker_values_checked", st["values_checked"])
     col.count("worker_orders_overtaking_notice", st["commands_overtaking_notice"])
+    col.count("worker_rounds_sibling_outputs_split_by_command", st.get("sibling_outputs_split_by_command", 0))
     for mech, msg in res["violations"]:
         col.violation(f"worker:{mech}", msg, {"rounds": rounds, "perm_index": perm_index}, None)
 
